@@ -24,7 +24,8 @@
    C04_struct_implies_consistent gives its structural reading no_hidden && tail_only;
    Known_C04 = negb shift_consistent. *)
 From Coq Require Import List NArith Bool Sorted.
-From Verif Require Import Base.Str Base.RangeSet Model.Split Proofs.SplitProofs.
+From Verif Require Import Base.Str Base.RangeSet Gen.GenSplit Model.Split Model.SplitCarry
+     Proofs.SplitProofs Proofs.SplitCarryProofs.
 Import ListNotations.
 Open Scope N_scope.
 
@@ -73,6 +74,29 @@ Theorem C04_unkept_line_unrecorded :
   forall c y, at_pos C c y -> ~ In y W -> forall a, note_lists note a c = false.
 Proof. exact unkept_line_unrecorded. Qed.
 Print Assumptions C04_unkept_line_unrecorded.
+
+(* The carry.  post_commit re-examines every file named by the INITIAL of the parent's working log
+   (pathspec union; shapes regenerated from post_commit.rs into Gen/GenSplit.v -- a condition on that
+   loop flips initial_loop_unconditional and this proof stops checking).  For such a file that the
+   commit does not touch (no committed hunk) and whose claimed lines are all still uncommitted, the next
+   INITIAL keeps exactly the non-human claims, once, and the note gets nothing: whatever other files
+   have checkpoints (cps), whatever else INITIAL names. *)
+Theorem C04_carry :
+  forall cps ini_files keep f attrs U Pu,
+  In f ini_files -> StronglySorted N.lt U -> (forall a w, claim attrs w a -> In w U) ->
+  exists ini, post_commit_file cps ini_files keep f attrs [] U Pu = SOk [] ini /\
+    (forall a w, init_lists ini a w = true <-> a <> human /\ claim attrs w a) /\
+    NoDup (init_lines ini).
+Proof. exact carry. Qed.
+Print Assumptions C04_carry.
+
+(* why the pathspec union matters: a file outside the pathspecs loses every claim *)
+Theorem C04_carry_needs_pathspec :
+  forall cps ini_files keep f attrs K U Pu,
+  path_mem f (post_commit_pathspecs cps ini_files keep) = false ->
+  post_commit_file cps ini_files keep f attrs K U Pu = SOk [] [].
+Proof. exact not_in_pathspecs_forgotten. Qed.
+Print Assumptions C04_carry_needs_pathspec.
 
 Theorem C04_deletion_refuted : refuted [1] [1; 2] [2] [ai 1 1].
 Proof. exact deletion_refuted. Qed.
